@@ -213,7 +213,7 @@ class IsotensionCriteria(BaseCriteria):
         elastic_energy = context.pressure * (
             current_volume - old_volume
         ) + old_volume * np.trace(
-            (context.external_stress - context.pressure) @ self.strain_tensor
+            (context.external_stress - context.pressure * np.eye(3)) @ self.strain_tensor
         )
 
         return context.rng.random() < math.exp(
